@@ -4,6 +4,7 @@ from props.common import svt, gens, summarize_cfg, differential
 
 ID = "C06"
 LEVEL = "exploration"
+TAG_KEYS = True   # violation keys get the configuration feature tag appended (engine.feature_tag)
 RULE = ("Hypothesis draws (configuration, content incl. extremes and 10-bit, N) and 2-3 cumulative ISA masks from {<=SSE2, <=SSSE3, <=SSE4_1, <=AVX2, ALL(AVX-512)}; "
         "every level is encoded in its own process (the dispatch table is process-global) with logical_processors=1 and packets+recon must equal the C-only run "
         "(use_cpu_flags=0). non-trivial = >=3 levels (incl. C) completed and the stream has inter frames; distinct = (config, content, N, masks) hash.")
